@@ -212,6 +212,11 @@ def check(ctx):
         files = {l.rsplit("/", 1)[1]: t for l, t in p["mods"].items()}
         cases.append(("accepted", files))
     cases.append(("accepted-long-then-short", {"main.oal": "res / on get -> <>;\n"}))
+    # accepted programs that describe nothing: the document (with empty paths) is still what success means
+    cases.append(("accepted-no-resource", {"main.oal": "let a = { 'n num };\nlet @named = [a];\n"}))
+    cases.append(("accepted-empty", {"main.oal": ""}))
+    cases.append(("accepted-comment-only", {"main.oal": "// nothing yet\n"}))
+    cases.append(("accepted-library-only", {"main.oal": 'use "lib.oal";\n', "lib.oal": "let t = str;\n"}))
     for ci, (kind, files) in enumerate(cases):
         for mode in (["options", "config", "mixed", "mixed-target"] if ctx.thorough else [["options", "config"], ["mixed"], ["options", "mixed-target"], ["config", "mixed"]][ci % 4]):
             for base_kind in (["none", "good", "bad"] if ctx.thorough else [["none", "good"], ["none", "bad"], ["good", "missing"]][idx % 3]):
